@@ -75,10 +75,35 @@ def _env(fname):
         from cincoconfig import Schema, ListField
         s = Schema()
         main, other = _mk_field(fname), _mk_field(OTHER_OF[fname])
-        s.l = ListField(main)
-        s.o = ListField(other)
+        item = Schema()
+        for holder in (s, s.sub, item):         # the same two list fields at the root, in a sub-configuration, in a list item
+            holder.l = ListField(main)
+            holder.o = ListField(other)
+        s.items = ListField(item)
         _CACHE[fname] = (s, main, other)
     return _CACHE[fname]
+
+
+PLACES = ["root", "sub", "item"]
+PLACE_PREFIX = {"root": "", "sub": "sub.", "item": "items[1]."}
+
+
+def _holder(cfg, place):
+    """the configuration object that holds the container under test"""
+    if place == "root":
+        return cfg
+    if place == "sub":
+        return cfg.sub
+    cfg.items = [{}, {}, {}]
+    return cfg.items[1]
+
+
+def _field_at(schema, place, name):
+    if place == "root":
+        return schema._fields[name]
+    if place == "sub":
+        return schema._fields["sub"]._fields[name]
+    return schema._fields["items"].field._fields[name]
 
 
 def _errkind(e):
@@ -314,17 +339,71 @@ def _list_random(rng, fname, maxops):
     return {"kind": "list", "field": fname, "init": init, "ops": ops, "src": "random"}
 
 
+VALIDATING = ("setitem", "setdefault", "setdefault1", "update", "ior", "new", "append", "insert", "extend")
+
+
+def _placed(cases):
+    """the same operations on a container held by a sub-configuration / by a configuration inside a list (error paths)"""
+    out = []
+    n = 0
+    for c in cases:
+        if c["kind"] in ("list", "dict") and len(c["init"]) == 1 and c["ops"] and c["ops"][0][0] in VALIDATING:
+            n += 1
+            if c["kind"] == "list" and n % 4:
+                continue
+            out.append(dict(c, place=("sub", "item")[n % 2], src="placed"))
+    return out
+
+
+def _bad_inits():
+    """whole-value assignment of a container with an unacceptable item / entry, in every placement"""
+    out = []
+    for fname in FIELDS:
+        cls = _by_class(fname)
+        v = [x for x in cls["valid"] if x is not None]
+        for place in PLACES:
+            for bad in cls["invalid"][:3]:
+                for init in ([bad], [v[0], bad, v[1]], [cls["normalisable"][0], v[0], bad]):
+                    out.append({"kind": "list", "field": fname, "init": init, "ops": [("copy",)], "src": "bad-init", "place": place})
+    for dk in DKINDS:
+        kcls, vcls = _dpools(dk)
+        k = [x for x in kcls["valid"] if x is not None] or kcls["valid"]
+        v = [x for x in vcls["valid"] if x is not None]
+        badv = vcls["invalid"][:2]
+        badk = kcls["invalid"][:2]
+        nk = (kcls["normalisable"] or k)[0]
+        for place in PLACES:
+            inits = [[(k[0], b)] for b in badv] + [[(b, v[0])] for b in badk]
+            inits += [[(k[0], v[0]), (nk, badv[0]), (k[-1], badv[-1])], [(k[0], v[0]), (k[1 % len(k)], v[0]), (nk, badv[0])]]
+            if badk:
+                inits += [[(k[0], v[0]), (badk[0], badv[0]), (k[-1], v[0])]]
+            for init in inits:
+                out.append({"kind": "dict", "field": dk, "init": [tuple(p) for p in init], "ops": [("copy",)], "src": "bad-init",
+                            "place": place})
+    return out
+
+
 def generate(rng, tier):
     cases = [{"kind": "slots", "which": "list"}, {"kind": "slots", "which": "dict"}]
     for fname in FIELDS:
         cases += _list_matrix(fname, tier)
     cases += _dict_matrix(tier)
+    cases += _placed(cases)
+    cases += _bad_inits()
     nrand = 260 if tier == "quick" else 6000
     maxops = 14 if tier == "quick" else 40
     for i in range(nrand):
-        cases.append(_list_random(rng, FIELDS[i % len(FIELDS)], maxops))
+        cases.append(dict(_list_random(rng, FIELDS[i % len(FIELDS)], maxops), place=rng.choice(PLACES)))
     for i in range(nrand):
-        cases.append(_dict_random(rng, i, maxops))
+        cases.append(dict(_dict_random(rng, i, maxops), place=rng.choice(PLACES)))
+    return cases
+
+
+def generate_for(prop, rng, tier):
+    """C15 looks at the error paths only: typed dicts everywhere, lists where the whole value is assigned or placed"""
+    cases = generate(rng, tier)
+    if prop == "C15":
+        cases = [c for c in cases if c["kind"] == "dict" or c.get("src") in ("bad-init", "placed")]
     return cases
 
 
@@ -381,10 +460,15 @@ def _denv(dk):
     key = "dict:" + dk
     if key not in _CACHE:
         from cincoconfig import Schema, DictField, StringField
+        from cincoconfig import ListField
         s = Schema()
         kf = None if DKINDS[dk][0] == "any" else _mk_field(DKINDS[dk][0])
-        s.d = DictField(kf, _mk_field(DKINDS[dk][1]))
-        s.o = DictField(StringField(), StringField())
+        vf = _mk_field(DKINDS[dk][1])
+        item = Schema()
+        for holder in (s, s.sub, item):
+            holder.d = DictField(kf, vf)
+            holder.o = DictField(StringField(), StringField())
+        s.items = ListField(item)
         _CACHE[key] = (s, s._fields["d"].key_field, s._fields["d"].value_field)
     return _CACHE[key]
 
@@ -668,7 +752,7 @@ def _g_dict_case(c):
         for a, b in ps:
             ks.append(a)
             vs.append(b)
-    return "(CDict %s %s %s %s %s)" % (g_n(1), _table(kf, ks), _table(vf, vs), _g_pairs(_dict_collapse(c["init"])),
+    return "(CDict %s %s %s %s %s %s)" % (g_n(1), _g_path(c, "d"), _table(kf, ks), _table(vf, vs), _g_pairs(_dict_collapse(c["init"])),
                                        g_list(c["ops"], lambda o: _g_dop(dk, o)))
 
 
@@ -763,10 +847,40 @@ def _impl_dict(c):
     from cincoconfig.fields.dict_field import DictProxy
     dk = c["field"]
     schema, kf, vf = _denv(dk)
-    cfg = schema()
+    place = c.get("place", "root")
+    root = schema()
+    cfg = _holder(root, place)             # the configuration that holds the dict
+    dfield = _field_at(schema, place, "d")
+    pre = _path_of(c, "d")
+    c["_c15"] = []
 
     def fid_of(px):
-        return 0 if px.dict_field is schema._fields["d"] else 1
+        return 0 if px.dict_field is dfield else 1
+
+    def first_bad(ps):
+        """key (as given) of the first pair the real key / value fields refuse"""
+        for a, b in ps:
+            if _validate(kf, a)[0] != "ok" or _validate(vf, b)[0] != "ok":
+                return (a,)
+        return None
+
+    def run_d(f, keys):
+        """outcome of an operation on the proxy + what the C15 oracle needs to know about a raised error"""
+        from cincoconfig import ValidationError
+        try:
+            return ("ok", f()), None
+        except Broken:
+            raise
+        except ValidationError as e:
+            path = e.ref_path
+            shown = path
+            if isinstance(path, str) and path.startswith(pre + "[") and path.endswith("]"):
+                inner = path[len(pre) + 1:-1]
+                if inner in {"%s" % x for x in keys if isinstance(x, float)}:
+                    shown = pre + "[<float>]"          # float text is not modelled
+            return ("err", ("validation", shown)), {"cls": "ValidationError", "path": path, "text_has": str(path) in str(e)}
+        except Exception as e:  # noqa
+            return ("err", _errkind(e)), {"cls": type(e).__name__, "path": None, "text_has": False}
 
     def vpair(a, b):
         ra, rb = _validate(kf, a), _validate(vf, b)
@@ -781,10 +895,12 @@ def _impl_dict(c):
             out.append(r)
         return out, True
 
-    try:
-        cfg.d = dict(c["init"])
-    except Exception as e:  # noqa
-        return ("init", _errkind(e))
+    fb = first_bad(list(dict(c["init"]).items()))
+    c["_c15_init"] = {"want": "%s[%s]" % (pre, fb[0]) if fb else None}
+    out, info = run_d(lambda: setattr(cfg, "d", dict(c["init"])), [a for a, _ in c["init"]])
+    if out[0] != "ok":
+        c["_c15_init"].update(info)
+        return ("init", out[1])
     p = cfg.d
     twin = {}
     for a, b in dict(c["init"]).items():
@@ -794,10 +910,12 @@ def _impl_dict(c):
         k = op[0]
         accepted, parg, targ, pkw, tkw = True, None, None, {}, {}
         src_ok, kw_prefix = True, []
+        checked = []          # the pairs the operation has to validate, in order (C15 oracle)
         if k in ("setitem", "setdefault", "setdefault1"):
             parg = (op[1], op[2] if k != "setdefault1" else None)
             r = vpair(*parg)
             accepted, targ = r is not None, r
+            checked = [parg]
         elif k in ("update", "ior", "or", "new"):
             skind, ps = op[1]
             contents = _dsrc_contents(dk, op[1])
@@ -814,7 +932,7 @@ def _impl_dict(c):
                 cfg.o = dict(ps)               # the other dict field of the configuration that holds p
                 parg = cfg.o
             elif skind in ("othercfg", "otherfield"):
-                h = schema()
+                h = _holder(schema(), place)
                 if skind == "othercfg":
                     h.d = dict(ps)
                     parg = h.d
@@ -842,8 +960,11 @@ def _impl_dict(c):
                 norm, src_ok = vpairs(contents)
                 targ = norm if src_ok else None
                 accepted = src_ok
+            if k != "or" and not (skind in ("none", "self", "compat") or (k == "new" and skind == "othercfg")):
+                checked = list(contents)
             if k == "update":
                 pkw = dict(op[2])
+                checked = checked + list(pkw.items())
                 nkw, kw_all = vpairs(list(pkw.items()))
                 kw_prefix = nkw
                 if accepted and not kw_all:
@@ -851,8 +972,11 @@ def _impl_dict(c):
                 tkw = nkw
         if k == "or" and op[1][0] == "none":
             pout = tout = ("err", "type")      # `p | <nothing>` is not an expression: recorded as a type error on both sides
+            c["_c15"].append({"want": None})
         else:
-            pout = _run(lambda: _enc_dict_ret(_apply_dict(p, op, parg, pkw), p, fid_of))
+            pout, info = run_d(lambda: _enc_dict_ret(_apply_dict(p, op, parg, pkw), p, fid_of), [a for a, _ in checked])
+            fb = first_bad(checked)
+            c["_c15"].append(dict(info or {}, want="%s[%s]" % (pre, fb[0]) if fb else None))
             if accepted:
                 if k == "update":
                     # keyword keys are normalised too: hand them over as pairs after the positional part
@@ -875,10 +999,33 @@ def _impl_dict(c):
     return trace
 
 
+def _c15_clause(where, info):
+    """C15 on one refused operation: the library's ValidationError, naming the offending entry / field, in path and text"""
+    want = info.get("want")
+    if want is None or "cls" not in info:
+        return []
+    if info["cls"] != "ValidationError":
+        return ["%s: rejected with %s instead of the library's ValidationError (offending: %r)" % (where, info["cls"], want)]
+    if info["path"] != want:
+        return ["%s: the error names %r, the offending entry is %r" % (where, info["path"], want)]
+    if not info["text_has"]:
+        return ["%s: the error text does not contain the path %r" % (where, want)]
+    return []
+
+
+def _c15_init(c, obs, what):
+    info = c.get("_c15_init", {})
+    if info.get("want") is None:
+        return ["assigning an acceptable initial %s failed: %r" % (what, obs)]
+    return _c15_clause("assigning the whole %s" % what, info)
+
+
 def _oracle_dict(c, obs):
     bad = []
     if not isinstance(obs, list):
-        return ["assigning an acceptable initial dict failed: %r" % (obs,)]
+        return _c15_init(c, obs, "dict")
+    if c.get("_c15_init", {}).get("want") is not None:
+        return ["assigning a dict with an unacceptable entry (%s) was accepted" % c["_c15_init"]["want"]]
     _, kf, vf = _denv(c["field"])
     prev = obs[0]
     if not isinstance(prev, Proxy):
@@ -895,6 +1042,8 @@ def _oracle_dict(c, obs):
 
     for n, (op, (pout, pc, tout, tc)) in enumerate(zip(c["ops"], obs[1:])):
         k = op[0]
+        if n < len(c.get("_c15", [])):
+            bad += _c15_clause("step %d (%s)" % (n, k), c["_c15"][n])
         if not isinstance(pc, Proxy) or pc.fid != 0:
             bad.append("step %d (%s): the dict is no longer a typed dict of its field" % (n, k))
             break
@@ -1078,13 +1227,22 @@ def _list_inserted_values(fname, c):
     return vals
 
 
+def _path_of(c, name):
+    return PLACE_PREFIX[c.get("place", "root")] + name
+
+
+def _g_path(c, name):
+    from common import g_str
+    return g_str(_path_of(c, name))
+
+
 def gcase(c):
     if c["kind"] == "slots":
         return "(CSlots %s)" % g_bool(c["which"] == "list")
     if c["kind"] == "list":
         fname = c["field"]
         main = _env(fname)[1]
-        return "(CList %s %s %s %s)" % (g_n(1), _table(main, _list_inserted_values(fname, c)),
+        return "(CList %s %s %s %s %s)" % (g_n(1), _g_path(c, "l"), _table(main, _list_inserted_values(fname, c)),
                                         g_list(c["init"], gal), g_list(c["ops"], lambda o: _g_lop(fname, o)))
     return _g_dict_case(c)
 
@@ -1190,15 +1348,25 @@ def _impl_list(c):
     from cincoconfig.fields.list_field import ListProxy
     fname = c["field"]
     schema, main, other = _env(fname)
-    cfg = schema()
-    helper = schema()
+    place = c.get("place", "root")
+    root = schema()
+    cfg = _holder(root, place)             # the configuration that holds the list
+    helper = _holder(schema(), place)
+    lfield = _field_at(schema, place, "l")
 
     def fid_of(px):
-        return 0 if px.list_field is schema._fields["l"] else 1
+        return 0 if px.list_field is lfield else 1
 
+    # C15 bookkeeping (for the oracle): what a whole-value assignment of this initial list has to report
+    c["_c15_init"] = {"want": _path_of(c, "l") if any(_validate(main, x)[0] != "ok" for x in c["init"]) else None}
     try:
         cfg.l = list(c["init"])
     except Exception as e:  # noqa
+        from cincoconfig import ValidationError
+        c["_c15_init"].update(cls=type(e).__name__, path=getattr(e, "ref_path", None) if isinstance(e, ValidationError) else None,
+                              text_has=isinstance(e, ValidationError) and e.ref_path in str(e))
+        if isinstance(e, ValidationError):
+            return ("init", ("validation", e.ref_path))
         return ("init", _errkind(e))
     p = cfg.l
     twin = []
@@ -1317,7 +1485,9 @@ def _oracle_slots(c, obs):
 def _oracle_list(c, obs):
     bad = []
     if not isinstance(obs, list):
-        return ["assigning an acceptable initial list failed: %r" % (obs,)] if c.get("init_ok", True) else []
+        return _c15_init(c, obs, "list")
+    if c.get("_c15_init", {}).get("want") is not None:
+        return ["assigning a list with an unacceptable item to %s was accepted" % c["_c15_init"]["want"]]
     main = _env(c["field"])[1]
     prev = obs[0]
     if not isinstance(prev, Proxy):
